@@ -161,9 +161,16 @@ class Desugar(ast.NodeTransformer):
                                 ast.parse(ast.unparse(subject),
                                           mode="eval").body, n)
                         return n
-                bind = ast.copy_location(ast.Assign(
-                    [ast.Name(name, ast.Store())], subject), pat)
-                c.body = [bind] + list(c.body)
+                stored = any(isinstance(n, ast.Name) and n.id == name and
+                             isinstance(n.ctx, (ast.Store, ast.Del))
+                             for b in c.body for n in ast.walk(b))
+                if stored:
+                    bind = ast.copy_location(ast.Assign(
+                        [ast.Name(name, ast.Store())], subject), pat)
+                    c.body = [bind] + list(c.body)
+                else:
+                    # the name is just another way to write the subject
+                    c.body = [Sub().visit(b) for b in c.body]
                 t = True
                 if c.guard is not None:
                     t = Sub().visit(c.guard)
